@@ -133,6 +133,24 @@ def bands : Op
         .list [.flt b.1, .list (b.2.1.map optNatVal), .list (b.2.2.map optFltVal)]))]
   | _ => none
 
+/-- `C20.samples_at rows t` → the non-missing samples the model selects for time `t` (frame order) -/
+def samplesAtOp : Op
+  | [rowsV, tV] => do
+    let rows ← parseSampleRows rowsV
+    let t ← optNat tV
+    some [.list ((samplesAt rows t).map .flt)]
+  | _ => none
+
+/-- `C20.band_rows_by tol rows p` → the percentile container `[t, lower | n, upper | n]` per unique
+    time with the time mask `withinM tol` (times = positions of the non-negative doubles on the number
+    line; `tol = 0` is the code as it is) -/
+def bandRowsByOp : Op
+  | [.int tol, rowsV, .flt p] => do
+    let rows ← parseSampleRows rowsV
+    some [.list ((bandRowsBy (withinM tol.toNat) rows p).map (fun b =>
+      .list [optNatVal b.1, optFltVal b.2.1, optFltVal b.2.2]))]
+  | _ => none
+
 def parseMeas (v : Val) : Option (List (MRow Nat Nat Nat Float)) := do
   (← v.list?).mapM (fun r => match r with
     | .list [i, o, t, x] => do some ⟨← optNat i, ← optNat o, ← optNat t, ← x.flt?⟩
@@ -180,6 +198,7 @@ def ops : List (String × Op) :=
   [("C20.pd_add_data", pdAdd), ("C20.pd_add_data_legacy", pdAddLegacy), ("C20.pk_add_data", pkAdd),
    ("C20.spec", spec), ("C20.residual_legacy", residualLegacy),
    ("C20.simulation", simulation), ("C20.scatter", scatter), ("C20.band", band),
-   ("C20.admissible", admissibleOp), ("C20.bands", bands), ("C20.residual", residual)]
+   ("C20.admissible", admissibleOp), ("C20.bands", bands),
+   ("C20.samples_at", samplesAtOp), ("C20.band_rows_by", bandRowsByOp), ("C20.residual", residual)]
 
 end ChiDriver.C20
